@@ -135,6 +135,15 @@ def build_docs(cfg: Dict[str, Any]) -> List[str]:
                 f"<SHORT-NAME>{n}</SHORT-NAME>", f"<SHORT-NAME>{n}</SHORT-NAME><LONG-NAME>{tagname}</LONG-NAME>", 1))
             lay.diag_comms.append(og.single_ecu_job(f"L{i}.JOB.{n}", f"{n}_job").replace(
                 f"<SHORT-NAME>{n}_job</SHORT-NAME>", f"<SHORT-NAME>{n}_job</SHORT-NAME><LONG-NAME>{tagname}</LONG-NAME>", 1))
+            # services and jobs share one name space: the same name is a service in odd layers and a job in even ones
+            if i % 2:
+                lay.requests.append(og.request(f"L{i}.RQM.{n}", f"RQM_{n}", [og.p_const8("sid", 0x31 if n == "o" else 0x32, bytepos=0),
+                                                                               og.p_const8("who", i, bytepos=1)]))
+                lay.diag_comms.append(og.service(f"L{i}.DCM.{n}", f"{n}_mix", f"L{i}.RQM.{n}").replace(
+                    f"<SHORT-NAME>{n}_mix</SHORT-NAME>", f"<SHORT-NAME>{n}_mix</SHORT-NAME><LONG-NAME>{tagname}</LONG-NAME>", 1))
+            else:
+                lay.diag_comms.append(og.single_ecu_job(f"L{i}.JOBM.{n}", f"{n}_mix").replace(
+                    f"<SHORT-NAME>{n}_mix</SHORT-NAME>", f"<SHORT-NAME>{n}_mix</SHORT-NAME><LONG-NAME>{tagname}</LONG-NAME>", 1))
             lay.gnrs.append(og.response("GLOBAL-NEG-RESPONSE", f"L{i}.GNR.{n}", n, [og.p_const8("sid", 0x7F, bytepos=0)]).replace(
                 f"<SHORT-NAME>{n}</SHORT-NAME>", f"<SHORT-NAME>{n}</SHORT-NAME><LONG-NAME>{tagname}</LONG-NAME>", 1))
             lay.funct_classes.append(og.tag("FUNCT-CLASS", og.sn(n, tagname), ID=f"L{i}.FC.{n}"))
@@ -148,7 +157,7 @@ def build_docs(cfg: Dict[str, Any]) -> List[str]:
         for p in (reversed(cfg["parents"][i - 1]) if cfg.get("rev") else cfg["parents"][i - 1]):
             names = nimap.get(int(p), [])
             lay.parent_refs.append(og.parent_ref(f"L{p}.id", types[p - 1], f"DLC{p}" if cfg.get("rev") else "DLC",
-                                                 ni_diag_comms=[x for n in names for x in (n, f"{n}_job")],
+                                                 ni_diag_comms=[x for n in names for x in (n, f"{n}_job", f"{n}_mix")],
                                                  ni_dops=names, ni_tables=names, ni_gnrs=names))
         if t != "ECU-SHARED-DATA":
             for key in cfg["cps"][i - 1]:
@@ -167,7 +176,7 @@ def owner(obj: Any) -> int:
     return int(ln.split("@L")[1]) if "@L" in ln else -1
 
 
-CATS_WITH_NI = ("services", "jobs", "dops", "tables", "gnrs")
+CATS_WITH_NI = ("services", "jobs", "mixed_diag_comms", "dops", "tables", "gnrs")
 CATS_NO_NI = ("functional_classes", "state_charts", "additional_audiences", "unit_groups")
 
 
@@ -180,8 +189,11 @@ def real_views(layer: Any) -> Dict[str, Dict[str, int]]:
         return list(v) if v is not None else []
     ddds = layer.diag_data_dictionary_spec
     us = ddds.unit_spec if ddds is not None else None
+    def mix(objs: List[Any], want: bool) -> List[Any]:
+        return [o for o in objs if o.short_name.endswith("_mix") == want]
     cats = {
-        "services": attr("services"), "jobs": attr("single_ecu_jobs"),
+        "services": mix(attr("services"), False), "jobs": mix(attr("single_ecu_jobs"), False),
+        "mixed_diag_comms": mix(attr("services") + attr("single_ecu_jobs"), True),
         "dops": list(ddds.data_object_props) if ddds else [], "tables": list(ddds.tables) if ddds else [],
         "gnrs": attr("global_negative_responses"), "functional_classes": attr("functional_classes"),
         "state_charts": attr("state_charts"), "additional_audiences": attr("additional_audiences"),
@@ -191,7 +203,7 @@ def real_views(layer: Any) -> Dict[str, Dict[str, int]]:
     for c, objs in cats.items():
         d: Dict[str, int] = {}
         for o in objs:
-            n = o.short_name[:-4] if o.short_name.endswith("_job") else o.short_name
+            n = o.short_name[:-4] if o.short_name.endswith(("_job", "_mix")) else o.short_name
             d[n] = owner(o) if n not in d else -99   # the same name twice in one view
         out[c] = d
     return out
